@@ -120,6 +120,8 @@ def tags_of(sh, v, payload, mode):
     base = {"none": "unit", "string": "string"}.get(k, "num")
     t.add("%s+%s" % (mode, base))
     t.add("%s+%s+%s" % (mode, base, "generic" if generic else "user"))
+    if all(x == "none" for x in sh.kinds):
+        t.add("%s+allunit" % mode)
     return t
 
 
@@ -364,15 +366,13 @@ def raw_cases():
         c("try-continues-after-error", "Result<int, RuntimeError> td(int a, int b) {\n    return try (a / b);\n}\n" + SH,
           "    cls(td(1, 0));\n    cls(td(6, 3));\n    cls(td(1, 0));", "err DivisionByZeroError: Division by zero\nok 2\nerr DivisionByZeroError: Division by zero\nEND\n"),
         c("try-as-initialiser", SH, "    int a = 1;\n    int b = 0;\n    Result<int, RuntimeError> r = try (a / b);\n    cls(r);",
-          "err DivisionByZeroError: Division by zero\nEND\n", finding="try_in_initialiser"),
+          "err DivisionByZeroError: Division by zero\nEND\n", finding="string_payload_lost_return_init"),
         c("binding-name-reused-int-then-string", E, "    E z = E::B(5);\n    match (z) {\n        B(s) => { println(\"B\", s); }\n        _ => { println(\"other\"); }\n    }\n"
-          "    E y = E::C(\"str\");\n    match (y) {\n        C(s) => { println(\"C\", s); }\n        _ => { println(\"other\"); }\n    }", "B 5\nC str\nEND\n",
-          finding="binding_leaks_scope"),
+          "    E y = E::C(\"str\");\n    match (y) {\n        C(s) => { println(\"C\", s); }\n        _ => { println(\"other\"); }\n    }", "B 5\nC str\nEND\n"),
         c("binding-name-reused-string-then-int", E, "    E y = E::C(\"str\");\n    match (y) {\n        C(s) => { println(\"C\", s); }\n        _ => { println(\"other\"); }\n    }\n"
-          "    E z = E::B(5);\n    match (z) {\n        B(s) => { println(\"B\", s); }\n        _ => { println(\"other\"); }\n    }", "C str\nB 5\nEND\n",
-          finding="binding_leaks_scope"),
+          "    E z = E::B(5);\n    match (z) {\n        B(s) => { println(\"B\", s); }\n        _ => { println(\"other\"); }\n    }", "C str\nB 5\nEND\n"),
         c("binding-does-not-clobber-outer", E, "    int v = 99;\n    E z = E::B(5);\n    match (z) {\n        B(v) => { println(\"B\", v); }\n        _ => { println(\"other\"); }\n    }\n    println(v);",
-          "B 5\n99\nEND\n", finding="binding_leaks_scope"),
+          "B 5\n99\nEND\n"),
         c("nonexhaustive-stops", E, "    E f = E::F;\n    match (f) {\n        A => { println(\"A\"); }\n        B(v) => { println(\"B\"); }\n    }\n    println(\"after\");", "", cls="error"),
         c("match-in-loop-each-iteration", E, "    for (int i = 0; i < 3; i++) {\n        E x = E::B(i);\n        match (x) {\n            B(q) => { println(\"B\", q); }\n            _ => { println(\"other\"); }\n        }\n    }",
           "B 0\nB 1\nB 2\nEND\n"),
